@@ -73,7 +73,7 @@ func factsAlong(p *Prog, s EffectSite) []Fact {
 		for _, b := range l.env.Fn.Blocks {
 			for _, in := range b.Instrs {
 				lc, ok := in.(*ssa.Call)
-				if !ok || lc.Call.StaticCallee() == nil || len(lc.Call.StaticCallee().Blocks) == 0 || l.env.depth >= 4 {
+				if !ok || lc.Call.StaticCallee() == nil || len(lc.Call.StaticCallee().Blocks) == 0 || l.env.depth >= maxDepth {
 					continue
 				}
 				sc := lc.Call.StaticCallee()
